@@ -368,7 +368,7 @@ inductive GoSig
 
 /-- what `self` the Go function sees -/
 inductive Recv
-  | module          -- `Object(m.Module)` (the module for a module function; a nil *Module for a type's method)
+  | module          -- `Object(m.Module)` (the module of a module function)
   | obj (v : Val)   -- an instance
   deriving Repr, DecidableEq
 
@@ -394,11 +394,23 @@ def methodCallWithKeywords (g : GoSig) (self : Recv) (args : List Val) (kwargs :
   | .argsKw => .ok { self := self, args := args, kwargs := some kwargs }
   | _ => .error .type     -- takes no keyword arguments
 
-/-- `Method.M__call__`: `self := Object(m.Module)` -/
-def methodMCall (g : GoSig) (args : List Val) (kwargs : Option Dict) : Except Err Delivered :=
-  match kwargs with
-  | some kw => methodCallWithKeywords g .module args kw
-  | none => methodCall g .module args
+/-- `Method.M__call__`.  `objclass = none`: `m.objclass == nil`, `self := Object(m.Module)`.
+`objclass = some isInst` (the unbound method `Method.M__get__(None, cls)` makes, fix 6784585):
+the first argument is the receiver – `len(args) == 0` is a TypeError, so is
+`!args[0].Type().IsSubtype(m.objclass)` (`isInst`), else `self, args = args[0], args[1:]` -/
+def methodMCall (g : GoSig) (objclass : Option (Val → Bool)) (args : List Val) (kwargs : Option Dict) :
+    Except Err Delivered :=
+  match (match objclass with
+         | none => (Except.ok (Recv.module, args) : Except Err (Recv × List Val))
+         | some isInst =>
+           match args with
+           | [] => .error .type                  -- descriptor needs an argument
+           | o :: rest => if isInst o then .ok (.obj o, rest) else .error .type) with
+  | .error e => .error e
+  | .ok (self, args) =>
+    match kwargs with
+    | some kw => methodCallWithKeywords g self args kw
+    | none => methodCall g self args
 
 /-- `BoundMethod.M__call__` on a `*Method` -/
 def boundMethodCall (g : GoSig) (self : Val) (args : List Val) (kwargs : Option Dict) : Except Err Delivered :=
@@ -408,16 +420,18 @@ def boundMethodCall (g : GoSig) (self : Val) (args : List Val) (kwargs : Option 
 
 /-- how the callable is reached -/
 inductive Route
-  | moduleFn            -- `mod.fn(args)`
-  | viaInstance (o : Val)   -- `o.m(args)`: `Method.M__get__(o, T)` = BoundMethod
-  | viaClass            -- `T.m(o, args)`: `Method.M__get__(None, T)` = the method itself
+  | moduleFn            -- `mod.fn(args)`: the module's copy of the method (`Module != nil`)
+  | viaInstance (o : Val)   -- `o.m(args)`: `Method.M__get__(o, T)` = BoundMethod(o, m)
+  | viaClass            -- `T.m(o, args)`: `Method.M__get__(None, T)` = a copy of m with `objclass = T`
   deriving Repr, DecidableEq
 
-/-- attribute lookup + call of a Go callable with the `(args, kwargs)` `Vm.Call` hands over -/
-def goCall (g : GoSig) (r : Route) (args : List Val) (kwargs : Option Dict) : Except Err Delivered :=
+/-- attribute lookup (`Method.M__get__`) + call of a Go callable with the `(args, kwargs)` `Vm.Call`
+hands over; `isInst v` = "the type of `v` is a subtype of the type that defines the method" -/
+def goCall (g : GoSig) (r : Route) (isInst : Val → Bool) (args : List Val) (kwargs : Option Dict) :
+    Except Err Delivered :=
   match r with
-  | .moduleFn => methodMCall g args kwargs
+  | .moduleFn => methodMCall g none args kwargs
   | .viaInstance o => boundMethodCall g o args kwargs
-  | .viaClass => methodMCall g args kwargs
+  | .viaClass => methodMCall g (some isInst) args kwargs
 
 end GPy.C04
